@@ -35,7 +35,7 @@ pub fn minimize(
         attempts: 0,
         accepted: 0,
     };
-    let mut try_plan = |cand: Plan, best: &mut Plan, st: &mut MinStats| -> bool {
+    let try_plan = |cand: Plan, best: &mut Plan, st: &mut MinStats| -> bool {
         if st.attempts >= budget || cand == *best {
             return false;
         }
